@@ -22,8 +22,8 @@ ID = 'C12'
 LEVEL = 'exploration'
 RULE = ('Hypothesis op lists (8..40 ops): suggest(worker,n) / complete '
         '(feasible|infeasible, any open trial) / add completed trial / request '
-        '/ delete one trial or the newest k trials (service) or replace an ACTIVE trial by id (in-RAM, the only '
-        'documented removal) / stop / lose_state (clear or make undecodable '
+        '/ delete one trial or the newest k trials (service) or replace an '
+        'ACTIVE trial by id (in-RAM, the only documented removal) / stop / lose_state (clear or make undecodable '
         'the cache part, the designer part or all of the stored policy state) '
         '/ restart (SQLite file: new servicer) / rebuild_policy (in-RAM); the '
         'recording designer over- or under-delivers by a drawn amount. '
@@ -74,6 +74,7 @@ def service_strategy():
         (8, st.tuples(st.just('suggest'), worker, st.integers(1, 3))),
         (8, st.tuples(st.just('complete'), ref, st.sampled_from(
             [False, False, False, True]))),
+        # CreateTrial keeps only SUCCEEDED: the flag is unused on this host
         (2, st.tuples(st.just('add_completed'), st.booleans())),
         (2, st.tuples(st.just('request'))),
         (2, st.tuples(st.just('delete'), st.one_of(st.just('max'), ref))),
